@@ -24,8 +24,8 @@ for name in $names; do
   git -C /repo worktree remove --force $wt
   for c in $checks; do
     out=$(VERIF_OVERLAY=$ov/overlay.json VERIF_BUDGET_S=${SEED_BUDGET:-900} /verif/verif $c 2>&1); r=$?
-    v=$(echo "$out" | grep -c "^VIOLATION property=$c ")
-    if [ $r = 1 ] && [ $v -gt 0 ]; then echo "$name: $c DETECTED ($v violation classes; first: $(echo "$out" | grep -A1 "^VIOLATION" | sed -n 2p | cut -c1-140))"
+    v=$(echo "$out" | grep -a -c "^VIOLATION property=$c ")
+    if [ $r = 1 ] && [ $v -gt 0 ]; then echo "$name: $c DETECTED ($v violation classes; first: $(echo "$out" | grep -a -A1 "^VIOLATION" | sed -n 2p | cut -c1-140))"
     else echo "$name: $c MISSED (exit $r)"; rc=1; fi
   done
 done
